@@ -3,7 +3,7 @@
    run; the statements below are about those regenerated programs and hold for EVERY
    interpretation of the stage functions, condition atoms and assignments. *)
 From Coq Require Import String List Bool.
-From MJV Require Import Model.Pipeline Proof.PipelineProof Gen.Pipeline Proof.C04Proof Proof.C04SkipProof.
+From MJV Require Import Model.Pipeline Proof.PipelineProof Gen.Pipeline Proof.C04Proof Proof.C04SkipProof Proof.C04InvProof.
 Import ListNotations.
 Open Scope string_scope.
 
@@ -56,6 +56,33 @@ Theorem C04_skip :
 Proof. exact skip_sound. Qed.
 Print Assumptions C04_skip.
 
+(* mj_inverseSkip(stage, sens), regenerated from src/engine/engine_inverse.c (statements outside the
+   driver language are kept as uninterpreted functions of the whole state, named by their text):
+   the full call is  pre ++ mid ++ post  and the skipping call is  pre ++ post  with mid <> [];
+   hence the two agree on every data on which mid, run after the common prefix pre, is a no-op
+   (the skipped stages' inputs are unchanged since they last ran).  No assumption on flags. *)
+Theorem C04_inverse_skip :
+  forall (data : Type) (call : string -> list string -> data -> data)
+         (assign : string -> string -> data -> data) (user : data -> data)
+         (atom : string -> data -> bool) (integ : data -> string) (stage sens : string),
+    In (stage, sens) [("mjSTAGE_POS", "0"); ("mjSTAGE_VEL", "0"); ("mjSTAGE_POS", "1"); ("mjSTAGE_VEL", "1")] ->
+    exists pre mid : list item, skip_mid stage sens = Some (pre, mid) /\ mid <> [] /\
+      forall d : data, mid_noop data call assign user atom integ pre mid d ->
+                run data call assign user atom integ (inv stage sens) d =
+                run data call assign user atom integ (inv "mjSTAGE_NONE" sens) d.
+Proof. exact inv_skip_sound. Qed.
+Print Assumptions C04_inverse_skip.
+
+(* mj_inverse = mj_inverseSkip(mjSTAGE_NONE, 0) *)
+Theorem C04_inverse_is_skip_none :
+  forall (data : Type) (call : string -> list string -> data -> data)
+         (assign : string -> string -> data -> data) (user : data -> data)
+         (atom : string -> data -> bool) (integ : data -> string) (d : data),
+    run data call assign user atom integ (PCall "mj_inverse" []) d =
+    run data call assign user atom integ (inv "mjSTAGE_NONE" "0") d.
+Proof. exact inverse_is_skip_none. Qed.
+Print Assumptions C04_inverse_is_skip_none.
+
 (* generic: for ANY two item lists accepted by the checker *)
 Theorem C04_check_split_sound :
   forall (data : Type) (call : string -> list string -> data -> data)
@@ -75,3 +102,21 @@ Example C04_example :
         (fun s _ => String.eqb s "mjENABLED(mjENBL_ENERGY)") (fun _ => "mjINT_EULER") prog_split [] = Some t /\
     In "U" t /\ In "mj_Euler" t /\ In "mj_fwdPosition" t /\ In "mj_fwdConstraint" t /\ In "mj_energyPos" t.
 Proof. eexists. split; [vm_compute; reflexivity|]. simpl. intuition. Qed.
+
+(* non-vacuity of the inverse statement: the removed segment for (POS, 0) contains the position
+   stage, and in the trace interpretation the skipping call really omits it while the full call runs it *)
+Example C04_inverse_example :
+  (exists pre mid, skip_mid "mjSTAGE_POS" "0" = Some (pre, mid) /\
+                   In "mj_invPosition" (items_calls mid) /\ In "mj_sensorPos" (items_calls mid) /\
+                   ~ In "mj_invVelocity" (items_calls mid)) /\
+  (exists t1 t2,
+    run (list string) (fun f _ d => f :: d) (fun l _ d => l :: d) (fun d => d)
+        (fun _ _ => false) (fun _ => "mjINT_EULER") (inv "mjSTAGE_NONE" "0") [] = Some t1 /\
+    run (list string) (fun f _ d => f :: d) (fun l _ d => l :: d) (fun d => d)
+        (fun _ _ => false) (fun _ => "mjINT_EULER") (inv "mjSTAGE_POS" "0") [] = Some t2 /\
+    In "mj_invPosition" t1 /\ ~ In "mj_invPosition" t2 /\ In "mj_invConstraint" t2 /\ In "mj_invVelocity" t2).
+Proof.
+  split.
+  - eexists. eexists. split; [vm_compute; reflexivity|]. vm_compute. intuition; discriminate.
+  - eexists. eexists. split; [vm_compute; reflexivity|]. split; [vm_compute; reflexivity|]. vm_compute. intuition; discriminate.
+Qed.
